@@ -12,9 +12,9 @@ import Proofs.InterpEffects
   domain — the instances it names are named by the correspondence — so the final state of a program run corresponds
   to the mechanism state after that history of mechanism operations.
 
-  Outside: writes to a class's own identifying attribute (the refinement keeps it in `idOf`, see `OpOkA`); the
-  conclusion is stated under the condition that the history contains none (`NoIdWrite`), and unconditionally for
-  models without identifying id attributes.
+  A write to a class's own identifying attribute corresponds too (`write_id`: the mechanism model keeps ids in
+  `idOf : Inst → Nat`), for NON-NEGATIVE integers; the conclusion is stated under the condition that the history
+  assigns only such values to id attributes (`IdWritesNonneg`), and unconditionally for models without id attributes.
 -/
 set_option linter.unusedSectionVars false
 set_option linter.unusedVariables false
@@ -24,9 +24,10 @@ namespace Pyx.Interp
 def Closed (kname : Nat → String) (kinds : List Nat) (st : State) : Prop :=
   ∀ c, st.live c ≠ [] → ∃ k ∈ kinds, c = kname k
 
-/-- the history does not assign a class's own identifying attribute -/
-def NoIdWrite (kname : Nat → String) (at_ : Pyx.Meta.Attrs) : Eff → Prop
-  | .set X name _ => ∀ k, X.cls = kname k → at_.idName k ≠ some name
+/-- where the history assigns a class's own identifying attribute, the value is a non-negative integer (the mechanism
+    model keeps ids in `idOf : Inst → Nat`) -/
+def IdWritesNonneg (kname : Nat → String) (at_ : Pyx.Meta.Attrs) : Eff → Prop
+  | .set X name v => ∀ k, X.cls = kname k → at_.idName k = some name → ∃ i : Int, v = .int i ∧ 0 ≤ i
   | _ => True
 
 theorem relate_live {C : Ctx} {x y : Inst} {r p : String} {st st' : State} (h : relate C x y r p st = .ok st') :
@@ -151,7 +152,7 @@ theorem named {kinds : List Nat} (R : Refines kname ι s st) (hp : Pyx.Meta.Pool
 theorem eff_step (hk : Function.Injective kname) (kinds : List Nat)
     (hD : ∀ k ∈ kinds, DeclOk decl at_ sch k)
     (R : RefinesA kname decl at_ sch ι s d st) (A : Pyx.Meta.AllInv sch s) (hc : Closed kname kinds st)
-    (e : Eff) (st' : State) (h : applyEff (ctxOfA kname decl kinds sch) e st = .ok st') (hno : NoIdWrite kname at_ e) :
+    (e : Eff) (st' : State) (h : applyEff (ctxOfA kname decl kinds sch) e st = .ok st') (hno : IdWritesNonneg kname at_ e) :
     ∃ op, OpOkA decl at_ sch kinds s op ∧
       (specStepA kname (ctxOfA kname decl kinds sch) ι s st op).2 = st' ∧ Closed kname kinds st' := by
   cases e with
@@ -204,9 +205,14 @@ theorem eff_step (hk : Function.Injective kname) (kinds : List Nat)
       intro hne
       have := ((hD _ hkin).refs a hmem).2 (by rw [hname]; exact hne)
       rw [hnr] at this; cases this
-    refine ⟨.set x name v, ⟨hx, hkin, a, hfa, Or.inr ⟨hnr, ⟨hform, hno _ hcls⟩, hty⟩⟩, ?_,
-      fun c hc' => hc c (by rw [← hlv]; exact hc')⟩
-    simp only [specStepA, h]
+    by_cases hid : at_.idName (s.kindOf x) = some name
+    · obtain ⟨i, hv, hi⟩ := hno _ hcls hid
+      refine ⟨.set x name v, ⟨hx, hkin, a, hfa, Or.inr (Or.inr ⟨hnr, hform, hid, hty, i, hv, hi⟩)⟩, ?_,
+        fun c hc' => hc c (by rw [← hlv]; exact hc')⟩
+      simp only [specStepA, h]
+    · refine ⟨.set x name v, ⟨hx, hkin, a, hfa, Or.inr (Or.inl ⟨hnr, ⟨hform, hid⟩, hty⟩)⟩, ?_,
+        fun c hc' => hc c (by rw [← hlv]; exact hc')⟩
+      simp only [specStepA, h]
 
 /-- **a history of successful Spec operations is the image of a mechanism history of the domain**, and the states
     after both correspond -/
@@ -214,7 +220,7 @@ theorem effs_refine (hk : Function.Injective kname) (kinds : List Nat) (hok : Py
     (hD : ∀ k ∈ kinds, DeclOk decl at_ sch k) :
     ∀ (es : List Eff) (ι : Nat → Inst) (s : MState) (d : MDict) (st st' : State),
       RefinesA kname decl at_ sch ι s d st → Pyx.Meta.AllInv sch s → Closed kname kinds st →
-      applyEffs (ctxOfA kname decl kinds sch) es st = .ok st' → (∀ e ∈ es, NoIdWrite kname at_ e) →
+      applyEffs (ctxOfA kname decl kinds sch) es st = .ok st' → (∀ e ∈ es, IdWritesNonneg kname at_ e) →
       ∃ ops, DomA decl at_ sch kinds s d ops ∧
         (specRunA kname decl at_ (ctxOfA kname decl kinds sch) sch ops s d ι st).2 = st' ∧
         RefinesA kname decl at_ sch (specRunA kname decl at_ (ctxOfA kname decl kinds sch) sch ops s d ι st).1
@@ -243,7 +249,7 @@ theorem effs_refine (hk : Function.Injective kname) (kinds : List Nat) (hok : Py
 /-- **program execution meets the mechanism.**  Let the Spec state `st` correspond to the mechanism state `(s, d)`
     (`RefinesA`, e.g. both initial, or both after any history of the domain — `attr_refines`).  A program run from `st`
     that ends normally in `st'` — any statements, nesting, loops, fuel — reaches `st'` through a history `es` of successful
-    state operations, and (if `es` assigns no identifying id attribute) there is a history `ops` of mechanism operations
+    state operations, and (if `es` assigns only non-negative integers to identifying id attributes) there is a history `ops` of mechanism operations
     of the refinement's domain such that the mechanism state after `ops` corresponds to `st'`: what the mechanism holds
     (pools in creation order, both directions of every association in link order, attribute values, the id counter) is
     what the program's final Spec state says. -/
@@ -253,7 +259,7 @@ theorem program_refines (hk : Function.Injective kname) (kinds : List Nat) (hok 
     (fuel : Nat) (body : Block) (kw : List (String × Val)) (v : Val) (st' : State)
     (h : runFunction (ctxOfA kname decl kinds sch) fuel body kw st = some (.ok (v, st'))) :
     ∃ es, applyEffs (ctxOfA kname decl kinds sch) es st = .ok st' ∧
-      ((∀ e ∈ es, NoIdWrite kname at_ e) →
+      ((∀ e ∈ es, IdWritesNonneg kname at_ e) →
         ∃ ops ι', DomA decl at_ sch kinds s d ops ∧
           RefinesA kname decl at_ sch ι' (mRunA decl at_ sch ops s d).1 (mRunA decl at_ sch ops s d).2 st') := by
   obtain ⟨es, hes⟩ := runFunction_effects _ fuel body kw st st' v h
@@ -272,7 +278,7 @@ theorem program_refines_noid (hk : Function.Injective kname) (kinds : List Nat) 
   obtain ⟨es, _, hrest⟩ := program_refines hk kinds hok hD R A hc fuel body kw v st' h
   apply hrest
   intro e _
-  cases e <;> first | trivial | (intro k _; rw [hid k]; intro hh; cases hh)
+  cases e <;> first | trivial | (intro k _ hh; rw [hid k] at hh; cases hh)
 
 /-- the initial states: empty, corresponding, closed -/
 theorem closed_init (kinds : List Nat) : Closed kname kinds initState := by
